@@ -1,13 +1,15 @@
 import PrefVerif.Driver.Util
 import PrefVerif.Driver.C20
 import PrefVerif.Driver.Voting
+import PrefVerif.Driver.C02
 open Lean PrefVerif.Driver
 
 def handlers : List (String × Handler) := [
   ("c20.pair", C20.pair),
   ("c20.matrix", C20.matrix),
   ("voting.tables", Voting.tables),
-  ("voting.rule", Voting.rule)
+  ("voting.rule", Voting.rule),
+  ("c02.run", C02.runOps)
 ]
 
 def dispatch (j : Json) : Json :=
